@@ -34,7 +34,10 @@ Files == {"entry", "m1", "m2"}
 Variants(f) ==
   CASE f = "entry" -> {"e1", "e2", "e3n", "e4v", "ebroken"}   \* e1 / e2: different local literal; all import m1;
                                                             \* e3n also imports m2 directly; e4v uses a VALUE that m1 re-exports with `export *`
-    [] f = "m1"    -> {"a1", "a2", "a3imp", "a4imp", "astar", "aunres", "abroken"}   \* a3imp / a4imp import from m2; astar: export * from m2
+    [] f = "m1"    -> {"a1", "a2", "a3imp", "a4imp", "astar", "aunres", "abroken",   \* a3imp / a4imp import from m2; astar: export * from m2
+                       \* texts that parse to the same syntax tree: a1d / a1e differ in a doc comment only (it reaches the output as a
+                       \* description), aloc / aloc2 in blank lines and indentation only (the located diagnostic they cause moves)
+                       "a1d", "a1e", "aloc", "aloc2"}
     [] f = "m2"    -> {"b1", "b2", "bbroken"}
 Missing == "missing"                                         \* the file does not exist (only m2 comes and goes)
 Parses(c) == c \notin {"ebroken", "abroken", "bbroken"}
